@@ -65,7 +65,11 @@ func init() {
 			n++
 		}
 		// 2. dispatch switch in handleChild: case X: handle = r.handleY ; default: handle = r.handleZ
-		fd, err := c.funcDecl(hr, "Restarter.handleChild")
+		// (the switch lives in Restarter.dispatch, which handleChild calls for every frame of a read)
+		fd, err := c.funcDecl(hr, "Restarter.dispatch")
+		if err != nil {
+			fd, err = c.funcDecl(hr, "Restarter.handleChild")
+		}
 		if err != nil {
 			return 0, err
 		}
